@@ -1,5 +1,14 @@
 import os, sys
 sys.path.insert(0, os.path.dirname(os.path.abspath(__file__)))
 from engine_checks import *  # noqa
+import eng_decide
+
+
+def run(res, tier, seed, proof_broken, replay):
+    run_c01(res, tier, seed, proof_broken, replay)
+    # the engine's own decisions: Lean decision tables (Props/Engine.lean) tied to the real methods by differential execution
+    eng_decide.attach(res, tier, seed, proof_broken)
+
+
 if __name__ == "__main__":
-    standard_main("C01", run_c01)
+    standard_main("C01", run)
